@@ -201,7 +201,7 @@ def check_set(ctx, obs):
             elif k == 'binstr':
                 want = {'value': '%0*x' % ((len(v) + 3) // 4, int(v, 2)), 'format': 'hex'}
             elif k == 'oid':
-                oid = g.truth[(mn, v)]['oid']
+                oid = g.truth[(d.get('defval_module', mn), v)]['oid']
                 want = {'value': str(tuple(oid)), 'format': 'oid'}
             elif k == 'bits':
                 pos = dict(syn['bits'])
